@@ -101,6 +101,13 @@ def stepLine (env : Env) (line : String) : Env × Option String :=
     match env[id]?, decodeVariant toks with
     | some d, some v => (env.insert id { d with variants := d.variants ++ [v] }, none)
     | _, _ => (env, some "bad-variant")
+  | "rawenum" :: id :: toks =>
+    match decodeRawEnum toks with
+    | some r =>
+      match collectEnum r [] with
+      | .ok d => (env.insert id d, none)
+      | .error _ => (env, some "collect-error")
+    | none => (env, some "bad-enum")
   | "rawvariant" :: id :: toks =>
     -- the variant as written: attribute collection is part of the model (StrumModel/Collect.lean)
     match env[id]?, decodeRawVariant toks with
